@@ -79,11 +79,18 @@ class ActGen:
                     lo, hi, plo, phi = 0.0, 180.0, 544, 2400
                     self.emit(f"{name} = Servo({p})")
                 else:
-                    lo = r.choice([0.0, 10.0, 45.0])
-                    hi = lo + r.choice([90.0, 180.0, 120.0])
+                    lo = r.choice([0.0, 10.0, 45.0, 22.5, 7.25])
+                    hi = lo + r.choice([90.0, 180.0, 120.0, 135.5])
                     plo = r.choice([500, 600, 1000])
                     phi = plo + r.choice([1000, 1500, 1900])
-                    self.emit(f"{name} = Servo({p}, min_angle={lo}, max_angle={hi}, min_pulse_us={plo}, max_pulse_us={phi})")
+                    if r.random() < 0.35:
+                        # constructor bounds named by user variables (initialised with literals, so they are set before any device state)
+                        self.emit(f"{name}_lo = {lo}")
+                        self.emit(f"{name}_phi = {phi}")
+                        self.emit(f"{name} = Servo({p}, min_angle={name}_lo, max_angle={hi}, min_pulse_us={plo}, max_pulse_us={name}_phi)")
+                        self.features.add("ctor-args-via-variables")
+                    else:
+                        self.emit(f"{name} = Servo({p}, min_angle={lo}, max_angle={hi}, min_pulse_us={plo}, max_pulse_us={phi})")
                 self.devices.append((kind, name, {"pin": p, "lo": lo, "hi": hi, "plo": plo, "phi": phi}))
                 self.bounds[p] = (lo, hi, plo, phi)
             else:
